@@ -806,3 +806,58 @@ Proof.
     rewrite (qsum_abs_z (fun j => cm_cell ps i j)) by (intros c; apply cell_nonneg). rewrite row_sum by exact Hp. rewrite !map_map.
     apply map_ext. intros j. apply l1div_z; [apply cell_nonneg|apply cell_le_row].
 Qed.
+
+(* normalize = "pred": columns *)
+Lemma nth_classes {X} (g : Z -> X) d n j : (j < n)%nat -> nth j (map g (classes n)) d = g (Z.of_nat j).
+Proof.
+  intros H. unfold classes. rewrite map_map.
+  rewrite (nth_indep _ d ((fun c => g (Z.of_nat c)) 0%nat)) by (rewrite map_length, seq_length; exact H).
+  rewrite (map_nth (fun c => g (Z.of_nat c))), seq_nth by exact H. reflexivity.
+Qed.
+Lemma col_norms_spec n ps : forallb (inrange n) (map snd ps) = true ->
+  col_norms (map (fun i => map (fun j => z2q (cm_cell ps i j)) (classes n)) (classes n))
+  = map (fun c => z2q (cnt (fun py => fst py =? c) ps)) (classes n).
+Proof.
+  intros Hy. unfold col_norms.
+  assert (Hw : width_q (map (fun i => map (fun j => z2q (cm_cell ps i j)) (classes n)) (classes n)) = n).
+  { destruct n; [reflexivity|]. unfold classes. cbn [seq map width_q List.length]. rewrite !map_length, seq_length. reflexivity. }
+  rewrite Hw. unfold classes at 3. rewrite (map_map Z.of_nat). apply map_ext_in. intros j Hj. apply in_seq in Hj.
+  rewrite map_map.
+  rewrite (map_ext _ (fun i => qabs (z2q (cm_cell ps i (Z.of_nat j))))) by (intros i; rewrite nth_classes by lia; reflexivity).
+  rewrite <- (map_map (fun i => z2q (cm_cell ps i (Z.of_nat j))) qabs).
+  rewrite (qsum_abs_z (fun i => cm_cell ps i (Z.of_nat j))) by (intros c; apply cell_nonneg).
+  rewrite col_sum by exact Hy. reflexivity.
+Qed.
+Theorem cm_compute_spec n nm ps : labels_in n ps ->
+  cm_compute nm (map (map z2q) (coo_dense n ps)) = cm_textbook_ps n nm ps.
+Proof.
+  intros Hl. destruct nm; try (apply cm_compute_spec_partial; [discriminate|exact Hl]).
+  destruct Hl as [Hp Hy]. rewrite coo_dense_spec. unfold cm_compute, cm_textbook_ps. rewrite !map_map.
+  rewrite (map_ext (fun i => map z2q (map (fun j => cm_cell ps i j) (classes n))) (fun i => map (fun j => z2q (cm_cell ps i j)) (classes n)))
+    by (intros i; apply map_map).
+  rewrite col_norms_spec by exact Hy. f_equal. apply map_ext. intros i. rewrite map_map.
+  rewrite (map2_map l1div (fun j => z2q (cm_cell ps i j)) (fun c => z2q (cnt (fun py : Z * Z => fst py =? c) ps))).
+  apply map_ext. intros j. apply l1div_z; [apply cell_nonneg|apply cell_le_col].
+Qed.
+
+(* end to end *)
+Lemma forallb_fst_combine {Y} (P : Z -> bool) a (b : list Y) : forallb P a = true -> forallb P (map fst (combine a b)) = true.
+Proof.
+  revert b. induction a as [|x a IH]; intros [|y b] H; try reflexivity. cbn [combine map forallb fst] in *.
+  apply andb_prop in H as [H1 H2]. rewrite H1, IH by exact H2. reflexivity.
+Qed.
+Theorem mccm_algo_eq_spec c b : cm_valid c b = true -> fn_of mccm_spec c b = mccm_textbook c b.
+Proof.
+  intros Hv. unfold fn_of, mccm_textbook. cbn [agamma abeta mccm_spec]. unfold cm_gamma, cm_beta. cbn [nget narr nth].
+  rewrite nrows_zmat, <- pairs_eq. apply cm_compute_spec.
+  unfold cm_valid in Hv. apply andb_prop in Hv as [Hv Hp]. apply andb_prop in Hv as [Hv Hy].
+  split; unfold pairs; [apply forallb_fst_combine; exact Hp|apply forallb_snd_combine; exact Hy].
+Qed.
+Theorem bincm_algo_eq_spec c b : bin_valid b = true -> fn_of bincm_spec c b = bincm_textbook c b.
+Proof.
+  intros Hv. unfold fn_of, bincm_textbook. cbn [agamma abeta bincm_spec]. unfold bincm_beta. cbn [nget narr nth].
+  rewrite nrows_zmat, bin_pairs_eq. apply cm_compute_spec.
+  pose proof (bin_ok01 (fst c) b Hv) as H01. set (ps := bin_pairs_spec (fst c) b) in *. clearbody ps.
+  split; rewrite forallb_forall; intros z Hz; apply in_map_iff in Hz as [py [<- Hin]]; destruct (H01 py Hin) as [[E|E] [E'|E']];
+    rewrite ?E, ?E'; reflexivity.
+Qed.
